@@ -404,7 +404,7 @@ func TestC09(t *testing.T) {
 	col := evd.New("C09", cfg)
 	defer col.Flush()
 	ops := c09Ops()
-	variants := cfg.N(2, 6)
+	variants := cfg.N(2, 24)
 	modes := []seam.FaultMode{seam.FaultError, seam.FaultCancel}
 	modeName := map[seam.FaultMode]string{seam.FaultError: "error", seam.FaultCancel: "cancel"}
 	idx := 0
